@@ -62,7 +62,12 @@ impl<const B: Word> Neg for Repr<B> {
     type Output = Self;
     #[inline]
     fn neg(mut self) -> Self::Output {
-        self.significand = -self.significand;
+        if self.is_infinite() {
+            // the sign of an infinity is carried by the exponent
+            self.exponent = -self.exponent;
+        } else {
+            self.significand = -self.significand;
+        }
         self
     }
 }
@@ -71,7 +76,7 @@ impl<R: Round, const B: Word> Neg for FBig<R, B> {
     type Output = Self;
     #[inline]
     fn neg(mut self) -> Self::Output {
-        self.repr.significand = -self.repr.significand;
+        self.repr = -self.repr;
         self
     }
 }
@@ -87,7 +92,11 @@ impl<R: Round, const B: Word> Neg for &FBig<R, B> {
 impl<R: Round, const B: Word> Abs for FBig<R, B> {
     type Output = Self;
     fn abs(mut self) -> Self::Output {
-        self.repr.significand = self.repr.significand.abs();
+        if self.repr.is_infinite() {
+            self.repr = Repr::infinity();
+        } else {
+            self.repr.significand = self.repr.significand.abs();
+        }
         self
     }
 }
@@ -95,25 +104,31 @@ impl<R: Round, const B: Word> Abs for FBig<R, B> {
 impl<R: Round, const B: Word> Mul<FBig<R, B>> for Sign {
     type Output = FBig<R, B>;
     #[inline]
-    fn mul(self, mut rhs: FBig<R, B>) -> Self::Output {
-        rhs.repr.significand *= self;
-        rhs
+    fn mul(self, rhs: FBig<R, B>) -> Self::Output {
+        match self {
+            Sign::Positive => rhs,
+            Sign::Negative => -rhs,
+        }
     }
 }
 
 impl<R: Round, const B: Word> Mul<Sign> for FBig<R, B> {
     type Output = FBig<R, B>;
     #[inline]
-    fn mul(mut self, rhs: Sign) -> Self::Output {
-        self.repr.significand *= rhs;
-        self
+    fn mul(self, rhs: Sign) -> Self::Output {
+        match rhs {
+            Sign::Positive => self,
+            Sign::Negative => -self,
+        }
     }
 }
 
 impl<R: Round, const B: Word> MulAssign<Sign> for FBig<R, B> {
     #[inline]
     fn mul_assign(&mut self, rhs: Sign) {
-        self.repr.significand *= rhs;
+        if rhs == Sign::Negative {
+            *self = -core::mem::take(self);
+        }
     }
 }
 
